@@ -413,7 +413,7 @@ def replay(case):
         if case.get("what") in ("dispatch", "reject"):
             from ..pool import SubReporter
 
-            sub = SubReporter(max_violations=100)
+            sub = SubReporter(max_violations=10**9)
             sub.evals = lambda n=1: None
             sub.nontrivial = lambda t: None
             dispatch_matrix(sub, d)
@@ -429,7 +429,7 @@ def replay(case):
         for ev in case["history"]:
             do(X, tuple(ev))
         cap = capture(X, SKIP)
-        sub = SubReporter(max_violations=1000)
+        sub = SubReporter(max_violations=10**9)
         stats = dict(states=0, loads=0, bisim=0)
         check_state(kind, args, [tuple(e) for e in case["history"]], cap, X, d, sub, stats)
         hits = [m for c, m in sub.violations if c.get("what") == case.get("what")]
